@@ -66,6 +66,7 @@ FIXED = [
  "fixed: property=C04 f2e4106 (was known finding F04) RESIZE_BILINEAR with half_pixel_centers: the first 2x2 depthwise step replicates the first row/column through its tile registers; calc_blockdep compared blocks by coordinate, missed the producer's last OFM block and programmed BLOCKDEP too large (read of not yet written rows under asynchronous schedules) (findings/FX-F04-resize-bilinear-hpc-blockdep.C04.json)",
  "fixed: property=C01 5eafae1 AVERAGE_POOL_2D with stride 4 on more than one channel (converted to Conv2D): unit weights of shape [h,w,1,C] for a convolution over C input channels; the weight stream holds a fraction of what the operation fetches (weight_stream_malformed, wrong values) (findings/FX-avgpool-stride4-conv-weights.C01.json)",
  "fixed: property=C02 f93cdf6 AVERAGE_POOL_2D with stride 4 (converted to a convolution) in front of a bypassed RESHAPE: shapes recomputed from the tensors (same class as 92fd28e), the convolution read rows outside its IFM and outside the scratch extent (findings/FX-avgpool-stride4-behind-bypassed-reshape.C02.json)",
+ "fixed: property=C03 594a293 SQUARED_DIFFERENCE in front of a bypassed RESHAPE: int32 intermediates and the final MUL took the reshaped shape (same class as 92fd28e), found by the reshape sweep tools/dev/reshape_sweep.py (findings/FX-squared-difference-behind-bypassed-reshape.C03.json)",
 ]
 EXTRA = [
  dict(id="F19-non-default-allocator-exceeds-arena-cache", property="C02", status="known",
